@@ -1,3 +1,573 @@
-/- C05: property theorems (stub, not yet built) -/
+/-
+C05 — Disruption budgets are never exceeded.
+
+Property theorems only (helper lemmas live in `Karp/Proofs/BudgetLemmas.lean`).
+Model: `Karp/Model/Budget.lean`  (IsActive / GetAllowedDisruptions / ByReason / MustGet, BuildDisruptionBudgetMapping,
+        the five methods' budget accounting, both validators, rounds with in-flight commands).
+Spec:  `Karp/Spec/BudgetWindow.lean` (window `[hit, hit+d)`, percentage rounding up, applies-to, malformed ⇒ 0,
+        most restrictive active budget, the counted node sets, the bound `new + already ≤ allowed`).
+The cron library is a parameter (`Cron`) specified by `NextSpec` ("least activation strictly after t, or none");
+its agreement with the real `robfig/cron` is sampled by the correspondence op `c05.active`.
+-/
+import Karp.Proofs.BudgetLemmas
+
 namespace Karp.C05
+open Karp.Budget Karp.Spec.BudgetWindow
+open Karp.Gen.BudgetFacts
+
+/-! ## Fact expectations over the regenerated facts -/
+
+/-- "unbounded" is `math.MaxInt32`, both for an inactive budget and as the start of the minimum -/
+theorem fact_unbounded : inactiveAllowed = 2147483647 ∧ initialAllowed = 2147483647 := by decide
+/-- fail closed: an error anywhere makes `MustGetAllowedDisruptions` return 0 -/
+theorem fact_mustErrorValue : mustErrorValue = 0 := by decide
+/-- "percentages are taken of the pool's initialized nodes rounding up" -/
+theorem fact_roundUp : scaledRoundUp = true ∧ scaledTotalArg = "numNodes" := by decide
+theorem fact_reasons : reasonUnderutilized = "Underutilized" ∧ reasonEmpty = "Empty" ∧ reasonDrifted = "Drifted" := by decide
+/-- every method charges the budget of its own reason -/
+theorem fact_method_reasons :
+    reasonOfEmptiness = reasonEmpty ∧ reasonOfStaticDrift = reasonDrifted ∧ reasonOfDrift = reasonDrifted ∧
+    reasonOfMultiNodeConsolidation = reasonUnderutilized ∧ reasonOfSingleNodeConsolidation = reasonUnderutilized := by decide
+/-- the five methods of the model are the five methods of `NewMethods` -/
+theorem fact_methodOrder :
+    methodOrder = ["NewEmptiness", "NewStaticDrift", "NewDrift", "NewMultiNodeConsolidation", "NewSingleNodeConsolidation"] := by decide
+/-- "validators recompute after the 15s delay" -/
+theorem fact_validationDelay : validationDelayNs = 15 * 1000000000 := by decide
+/-- admission preconditions of `v1.Budget` (taken as hypotheses: `nodes` is `<digits>` or `<digits>%`,
+    a schedule comes with a duration) -/
+theorem fact_nodesPattern : nodesPattern = "^((100|[0-9]{1,2})%|[0-9]+)$" := by decide
+theorem fact_budgetsRule :
+    budgetsRule = "message=\"'schedule' must be set with 'duration'\",rule=\"self.all(x, has(x.schedule) == has(x.duration))\"" := by decide
+theorem fact_durationPattern : durationPattern = "^((([0-9]+(h|m))|([0-9]+h[0-9]+m))(0s)?)$" := by decide
+theorem fact_schedulePattern :
+    schedulePattern = "^(@(annually|yearly|monthly|weekly|daily|midnight|hourly))|((.+)\\s(.+)\\s(.+)\\s(.+)\\s(.+))$" := by decide
+/-- the mapping reads the cluster, lists the pools and asks `MustGetAllowedDisruptions` -/
+theorem fact_mappingCalls : mappingCalls = ["DeepCopyNodes", "ListManaged", "MustGetAllowedDisruptions"] := by decide
+/-- a round: candidates, then the mapping, then the method's selection, then the queue -/
+theorem fact_disruptCalls :
+    disruptCalls = ["GetCandidatesWithTotals", "BuildDisruptionBudgetMapping", "ComputeCommands", "StartCommand"] := by decide
+/-- both validators re-list the candidates and rebuild the mapping -/
+theorem fact_validatorCalls :
+    emptinessValidatorCalls = ["GetCandidates", "mapCandidates", "BuildDisruptionBudgetMapping"] ∧
+    consolidationValidatorCalls = ["GetCandidates", "mapCandidates", "BuildDisruptionBudgetMapping"] ∧
+    isValidCalls = ["After", "validateCandidates", "validateCommand", "validateCandidates"] := by decide
+/-- the three validated methods do call their validator; the accepted candidates are marked for deletion -/
+theorem fact_computeCalls :
+    emptinessComputeCalls = ["Validate"] ∧ multiComputeCalls = ["firstNConsolidationOption", "Validate"] ∧
+    singleComputeCalls = ["computeConsolidation", "Validate"] := by decide
+theorem fact_startCommandCalls :
+    startCommandCalls = ["HasAny", "markDisrupted", "createReplacementNodeClaims", "MarkForDeletion"] := by decide
+/-- a node already in the queue or marked for deletion is never a candidate again -/
+theorem fact_newCandidateCalls : newCandidateCalls = ["HasAny", "ValidateNodeDisruptable", "ValidatePodsDisruptable"] := by decide
+
+/-! ## 1. The activity window -/
+
+/-- **C05_active_window** — for a scheduled budget, `IsActive` is true exactly when some activation `h` of the
+    schedule satisfies `h ≤ now < h + duration` (the window `[h, h+d)`), or when the cron library found no
+    activation within its five-year horizon (it then answers the zero time). For every schedule, duration
+    (also a missing one: `d = 0`, empty window) and instant. -/
+theorem C05_active_window (cron : Cron) (hit : Int → Bool) (next : Int → Option Int) (b : Budget) (s : String) (now : Int)
+    (hs : b.schedule = some s) (hc : cron s = some next) (hn : NextSpec hit next)
+    (hmin : ∀ h, hit h = true → h % 60000000000 = 0) :
+    isActive cron b now = some true ↔
+      ((∃ h, hit h = true ∧ h ≤ now ∧ now < h + b.duration.getD 0) ∨ next (now - b.duration.getD 0) = none) := by
+  rw [isActive_scheduled cron hit next b s now hs hc hn hmin, ← windowActive_iff hit hmin]
+  cases windowActive hit (b.duration.getD 0) now <;> cases next (now - b.duration.getD 0) <;> simp
+
+/-- **C05_active_restrictive** — the five-year-horizon branch can only make a budget *more* active: whenever the
+    window specification says "active", so does the code. -/
+theorem C05_active_restrictive (cron : Cron) (hit : Int → Bool) (next : Int → Option Int) (b : Budget) (s : String) (now : Int)
+    (hs : b.schedule = some s) (hc : cron s = some next) (hn : NextSpec hit next)
+    (hmin : ∀ h, hit h = true → h % 60000000000 = 0)
+    (hw : windowActive hit (b.duration.getD 0) now = true) : isActive cron b now = some true := by
+  rw [isActive_scheduled cron hit next b s now hs hc hn hmin, hw]; rfl
+
+/-- a budget without schedule and duration is always active -/
+theorem C05_active_always (cron : Cron) (b : Budget) (now : Int) (hs : b.schedule = none) (hd : b.duration = none) :
+    isActive cron b now = some true := by
+  unfold isActive; simp [hs, hd]
+
+/-! ## 2. Percentages, counts, malformed budgets -/
+
+/-- **C05_percent_rounds_up** — a percentage budget allows `⌈p·n/100⌉`: the least `k` with `100·k ≥ p·n`. -/
+theorem C05_percent_rounds_up (p n : Nat) :
+    scalePercent (p : Int) (n : Int) = (ceilPercent p n : Int) ∧
+    p * n ≤ 100 * ceilPercent p n ∧ (∀ k, p * n ≤ 100 * k → ceilPercent p n ≤ k) :=
+  ⟨scalePercent_eq p n, (ceilPercent_spec p n).1, (ceilPercent_spec p n).2⟩
+
+/-- **C05_int32_truncation_safe** — `intstr.FromInt` truncates a count to int32; for an admissible (non-negative)
+    count this never *increases* it (`nodes: "2147483648"` becomes negative, later clamped to 0). -/
+theorem C05_int32_truncation_safe (v : Int) (h : 0 ≤ v) : wrap32 v ≤ v ∧ (v ≤ 2147483647 → wrap32 v = v) :=
+  ⟨wrap32_le v h, fun h2 => wrap32_id v (by omega) h2⟩
+
+/-- **C05_malformed_schedule_zero** — a budget whose schedule cannot be parsed makes the pool allow zero, for every
+    reason (also the reasons the budget does not list), instant and pool size. -/
+theorem C05_malformed_schedule_zero (cron : Cron) (bs : List Budget) (now : Int) (total : Int) (reason : String)
+    (b : Budget) (hb : b ∈ bs) (s : String) (hs : b.schedule = some s) (hbad : cron s = none) :
+    mustAllowed cron bs now total reason = 0 := by
+  obtain ⟨_, _, h3⟩ := foldl_byReason cron now total reason bs (initialAllowed, false)
+  have : (budgetAllowed cron b now total).2 = true := by
+    unfold budgetAllowed isActive; simp [hs, hbad]
+  have hany : bs.any (fun b => (budgetAllowed cron b now total).2) = true := List.any_eq_true.mpr ⟨b, hb, this⟩
+  unfold mustAllowed allowedByReason
+  simp only [h3, hany, Bool.or_true, if_true]
+  rfl
+
+/-- **C05_malformed_nodes_zero** — an *active* budget whose `nodes` is neither `<int>` nor `<int>%` makes the pool
+    allow zero (the value is only read while the budget is active). -/
+theorem C05_malformed_nodes_zero (cron : Cron) (bs : List Budget) (now : Int) (total : Int) (reason : String)
+    (b : Budget) (hb : b ∈ bs) (hact : isActive cron b now = some true) (hbad : scaledValue b.nodes total = none) :
+    mustAllowed cron bs now total reason = 0 := by
+  obtain ⟨_, _, h3⟩ := foldl_byReason cron now total reason bs (initialAllowed, false)
+  have : (budgetAllowed cron b now total).2 = true := by
+    unfold budgetAllowed; simp [hact, hbad]
+  have hany : bs.any (fun b => (budgetAllowed cron b now total).2) = true := List.any_eq_true.mpr ⟨b, hb, this⟩
+  unfold mustAllowed allowedByReason
+  simp only [h3, hany, Bool.or_true, if_true]
+  rfl
+
+/-! ## 3. The pool's allowance never exceeds the most restrictive active budget
+
+FULL STATEMENT (as the property reads):
+
+    theorem C05_allowed_le_spec (hc : CronAgrees cron hitOf) (hadm : ∀ b ∈ bs, nodesSpec b.nodes ≠ .malformed) :
+        leAllowed (mustAllowed cron bs now n reason) (specAllowed hitOf bs now n reason) = true
+
+It is FALSE for the code as found: a budget whose `reasons` is a non-nil *empty* list applies to no reason in the
+code (`budget.Reasons == nil || lo.Contains(...)`), whereas "a budget applies to a reason if it lists it or lists
+none".  Witness below (`C05_empty_reasons_violation`); replayed on the real code by corpus
+`c05.reasons/empty-nonnil-reasons.json`; recorded as known finding `C05-empty-reasons`
+(repair: `len(budget.Reasons) == 0`, `fixes/C05-empty-reasons.patch`).
+
+Which guard the source has is a regenerated fact (`emptyReasonsApply`), and the model follows it.  The theorem is
+proved under exactly the excluded guard — "the source has the repaired guard, or no budget has `reasons = some []`" —
+so on a repaired tree it *is* the full statement (`C05_allowed_le_spec_when_repaired`). -/
+
+/-- **C05_allowed_le_spec_partial** — for every budget list with admissible `nodes` values (and, on the unrepaired
+    tree, no empty non-nil reason list), every instant, pool size and reason: what `MustGetAllowedDisruptions`
+    returns is at most the minimum, over the budgets that are active (window spec) and apply to the reason, of
+    count / `⌈p·n/100⌉`, and 0 if any schedule is unreadable. -/
+theorem C05_allowed_le_spec_partial (cron : Cron) (hitOf : HitOf) (hc : CronAgrees cron hitOf)
+    (bs : List Budget) (now : Int) (n : Nat) (reason : String)
+    (hadm : ∀ b ∈ bs, nodesSpec b.nodes ≠ .malformed)
+    (hreasons : emptyReasonsApply = true ∨ ∀ b ∈ bs, b.reasons ≠ some []) :
+    leAllowed (mustAllowed cron bs now n reason) (specAllowed hitOf bs now n reason) = true :=
+  allowed_le_spec cron hitOf hc bs now n reason hadm hreasons
+
+/-- the full statement, as soon as the source has the repaired guard -/
+theorem C05_allowed_le_spec_when_repaired (hfix : emptyReasonsApply = true)
+    (cron : Cron) (hitOf : HitOf) (hc : CronAgrees cron hitOf)
+    (bs : List Budget) (now : Int) (n : Nat) (reason : String)
+    (hadm : ∀ b ∈ bs, nodesSpec b.nodes ≠ .malformed) :
+    leAllowed (mustAllowed cron bs now n reason) (specAllowed hitOf bs now n reason) = true :=
+  allowed_le_spec cron hitOf hc bs now n reason hadm (Or.inl hfix)
+
+/-- the witness: `budgets: [{nodes: "0", reasons: []}]` -/
+def emptyReasonsBudget : Budget := { reasons := some [], nodes := ['0'], schedule := none, duration := none }
+
+/-- **C05_empty_reasons_violation** — the negation of the full statement on a concrete input, for the guard as found
+    (`budget.Reasons == nil`): the always-active budget `{nodes: "0", reasons: []}` lists no reason, so it applies to
+    "Empty" and allows 0; the code allows `MaxInt32`. Holds for every cron parameter. -/
+theorem C05_empty_reasons_violation (hguard : emptyReasonsApply = false) (cron : Cron) (hitOf : HitOf) :
+    mustAllowed cron [emptyReasonsBudget] 0 5 "Empty" = 2147483647 ∧
+    specAllowed hitOf [emptyReasonsBudget] 0 5 "Empty" = some 0 ∧
+    leAllowed (mustAllowed cron [emptyReasonsBudget] 0 5 "Empty") (specAllowed hitOf [emptyReasonsBudget] 0 5 "Empty") = false := by
+  have h1 : mustAllowed cron [emptyReasonsBudget] 0 5 "Empty" = 2147483647 := by
+    simp [mustAllowed, allowedByReason, byReasonStep, budgetAllowed, isActive, emptyReasonsBudget, appliesTo,
+      scaledValue, initialAllowed, hguard]
+    decide
+  have h2 : specAllowed hitOf [emptyReasonsBudget] 0 5 "Empty" = some 0 := by
+    simp [specAllowed, malformed, emptyReasonsBudget, applies, active, limit, minLimit]
+    decide
+  refine ⟨h1, h2, ?_⟩
+  rw [h1, h2]; decide
+
+/-- the guard is one of the two known ones (anything else is a FACT-ERROR at regeneration time) -/
+theorem fact_reasonsGuard :
+    (emptyReasonsApply = false ∧ reasonsGuard = "budget.Reasons == nil || lo.Contains(budget.Reasons, reason)") ∨
+    (emptyReasonsApply = true ∧ reasonsGuard = "len(budget.Reasons) == 0 || lo.Contains(budget.Reasons, reason)") := by decide
+
+/-! ## 4. The mapping -/
+
+/-- **C05_mapping** — `BuildDisruptionBudgetMapping` publishes, per pool, `max(allowed − disrupting, 0)` where
+    `allowed` is evaluated on the number of the pool's initialized nodes and `disrupting` counts, among those, the
+    ones that are not ready or marked for deletion: the very sets of the specification. -/
+theorem C05_mapping (cron : Cron) (p : Pool) (nodes : List Node) (now : Int) (reason : String) :
+    (poolRemaining cron p nodes now reason : Int) =
+      max (mustAllowed cron p.budgets now (poolSize nodes p.name) reason - (alreadyDisrupting nodes p.name : Int)) 0 := by
+  unfold poolRemaining
+  rw [numNodes_eq, disrupting_eq]
+  omega
+
+/-- **C05_mapping_sound** — selecting up to the published remaining allowance of a pool respects the property's
+    bound `new + already ≤ most restrictive active budget`. -/
+theorem C05_mapping_sound (cron : Cron) (hitOf : HitOf) (hc : CronAgrees cron hitOf) (w : World) (hg : GoodPools w.pools)
+    (reason : String) (p : Pool) (hp : p ∈ w.pools) (k : Nat) (hk : k ≤ w.mapping cron reason p.name) :
+    poolBoundOK hitOf p w.nodes w.now reason k = true :=
+  mapping_sound cron hitOf hc w hg reason p hp k hk
+
+/-! ## 5. Each method's selection stays within the mapping -/
+
+/-- **C05_select_emptiness** — per pool, Emptiness takes exactly `min(mapping, #empty candidates)`: never more than
+    the mapping, and only empty candidates of pools with budget. -/
+theorem C05_select_emptiness (m : Mapping) (cands : List Cand) (p : String) :
+    countPool p (selectEmptiness m cands) ≤ m p ∧
+    countPool p (selectEmptiness m cands) = min (m p) (countPool p (cands.filter (·.empty))) ∧
+    (∀ c ∈ selectEmptiness m cands, c ∈ cands ∧ c.empty = true ∧ m c.pool ≠ 0) :=
+  ⟨budgetFilter_count_le _ _ _ _, budgetFilter_exact _ _ _ _, budgetFilter_sub _ _ _⟩
+
+/-- **C05_select_multi** — whatever prefix the binary search of multi-node consolidation settles on, per pool it
+    holds at most `mapping` candidates. -/
+theorem C05_select_multi (m : Mapping) (cands : List Cand) (k : Nat) (p : String) :
+    countPool p (selectMulti m cands k) ≤ m p :=
+  Nat.le_trans (countPool_take_le p _ k) (budgetFilter_count_le _ _ _ _)
+
+/-- **C05_select_single** — single-node consolidation picks at most one candidate, of a pool whose mapping is not
+    zero (for every outcome of the scheduling simulations). -/
+theorem C05_select_single (ok : Cand → Bool) (m : Mapping) (cands : List Cand) (p : String) :
+    countPool p (selectFirst ok m cands).toList ≤ m p := by
+  cases h : selectFirst ok m cands with
+  | none => simp [countPool]
+  | some c => exact countPool_single_le m c (selectFirst_some ok m cands c h).2.1 p
+
+/-- **C05_select_drift** — drift picks at most one candidate, of a pool whose mapping is not zero. -/
+theorem C05_select_drift (ok : Cand → Bool) (m : Mapping) (cands : List Cand) (p : String) :
+    countPool p (selectDrift ok m cands).toList ≤ m p :=
+  C05_select_single ok m (driftOrder cands) p
+
+/-- **C05_select_static** — static drift emits, per pool, at most `min(mapping, #candidates)` single-candidate
+    commands, for every reservation outcome. -/
+theorem C05_select_static (m : Mapping) (over : String → Bool) (remaining : String → Int) (groups : List String)
+    (hnd : groups.Nodup) (cands : List Cand) (p : String) :
+    countPool p (selectStatic m over remaining groups cands) ≤ m p := by
+  refine Nat.le_trans (selectStatic_count m over remaining cands p groups hnd) ?_
+  split
+  · exact Nat.le_refl _
+  · exact Nat.zero_le _
+
+/-! ## 6. Validation re-checks against the recomputed mapping -/
+
+/-- **C05_validate_consolidation** — a command that passes `ConsolidationValidator.validateCandidates` fits, pool by
+    pool, the mapping rebuilt at validation time, and none of its candidates is nominated. -/
+theorem C05_validate_consolidation (m' : Mapping) (nominated : Cand → Bool) (cmd cur : List Cand)
+    (h : validateConsolidation m' nominated cmd cur = true) (p : String) :
+    countPool p cur ≤ m' p ∧ cur.length = cmd.length := by
+  unfold validateConsolidation at h
+  simp only [Bool.and_eq_true, beq_iff_eq] at h
+  exact ⟨allWithin_count nominated cur m' h.2 p, h.1⟩
+
+/-- **C05_validate_emptiness** — what `EmptinessValidator.validateCandidates` lets through fits the rebuilt mapping. -/
+theorem C05_validate_emptiness (m' : Mapping) (nominated : Cand → Bool) (cur v : List Cand)
+    (h : validateEmptiness m' nominated cur = some v) (p : String) :
+    countPool p v ≤ m' p ∧ (∀ c ∈ v, c ∈ cur ∧ nominated c = false) := by
+  unfold validateEmptiness at h
+  split at h
+  · cases h
+  · simp only at h
+    split at h
+    · cases h
+    · cases h
+      refine ⟨budgetFilter_count_le _ _ _ _, ?_⟩
+      intro c hc
+      obtain ⟨h1, h2, _⟩ := budgetFilter_sub _ _ _ c hc
+      exact ⟨h1, by simpa using h2⟩
+
+/-! ## 7. Rounds and histories -/
+
+/-- a step of a history is well-formed: every world the controller can compute a budget on has unique pool names
+    and admissible budgets (finding `C05-empty-reasons` excluded), and static drift groups are distinct -/
+def StepGood : Step → Prop
+  | .env w' => GoodPools w'.pools
+  | .round e => GoodPools e.later.pools ∧ e.groups.Nodup
+
+/-- **C05_round** — one round of any method: what reaches the queue satisfies, for every pool, the property's bound
+    on the world its budget was last computed on (the validation-time world for the validated methods). -/
+theorem C05_round (cron : Cron) (hitOf : HitOf) (hc : CronAgrees cron hitOf) (w : World) (e : RoundEnv)
+    (hw : GoodPools w.pools) (he : StepGood (.round e)) :
+    ∀ p ∈ (runRound cron w e).2.pools,
+      poolBoundOK hitOf p (runRound cron w e).2.nodes (runRound cron w e).2.now e.method.reason
+        (countPool p.name (runRound cron w e).1) = true := by
+  intro p hp
+  have hgood : GoodPools (runRound cron w e).2.pools := by
+    rcases runRound_world cron w e with h | h <;> rw [h]
+    · exact hw
+    · exact he.1
+  exact mapping_sound cron hitOf hc _ hgood e.method.reason p hp _ (runRound_within cron w e he.2 p.name)
+
+/-- **C05_rounds** — over every history (any interleaving of arbitrary environment changes and rounds of any method,
+    with earlier commands still in flight, i.e. their candidates still marked), every acceptance satisfies the
+    property's bound for every pool. -/
+theorem C05_rounds (cron : Cron) (hitOf : HitOf) (hc : CronAgrees cron hitOf) (steps : List Step) :
+    ∀ (w : World), GoodPools w.pools → (∀ s ∈ steps, StepGood s) →
+      ∀ a ∈ acceptances cron w steps, ∀ p ∈ a.world.pools,
+        poolBoundOK hitOf p a.world.nodes a.world.now a.method.reason (countPool p.name a.accepted) = true := by
+  induction steps with
+  | nil => intro w _ _ a ha; simp [acceptances] at ha
+  | cons s ss ih =>
+    intro w hw hs a ha p hp
+    have hss : ∀ s' ∈ ss, StepGood s' := fun s' h => hs s' (List.mem_cons_of_mem _ h)
+    cases s with
+    | env w' =>
+      simp only [acceptances, step] at ha
+      exact ih w' (hs _ List.mem_cons_self) hss a ha p hp
+    | round e =>
+      have he : StepGood (.round e) := hs _ List.mem_cons_self
+      have hgood : GoodPools (runRound cron w e).2.pools := by
+        rcases runRound_world cron w e with h | h <;> rw [h]
+        · exact hw
+        · exact he.1
+      simp only [acceptances, step] at ha
+      rcases List.mem_cons.mp ha with rfl | ha
+      · exact C05_round cron hitOf hc w e hw he p hp
+      · exact ih { (runRound cron w e).2 with nodes := markNodes ((runRound cron w e).1.map (·.name)) (runRound cron w e).2.nodes }
+          hgood hss a ha p hp
+
+/-! ## 8. In-flight commands accumulate in the count -/
+
+/-- "the pool's nodes that are already not ready or being deleted do not exceed the most restrictive active budget" -/
+def PoolWithin (hitOf : HitOf) (w : World) (p : Pool) (reason : String) : Prop :=
+  leAllowed (alreadyDisrupting w.nodes p.name : Int) (specAllowed hitOf p.budgets w.now (poolSize w.nodes p.name) reason) = true
+
+/-- a world whose node names are unique (the cluster state is keyed by provider id / node name) -/
+def NodesNodup (w : World) : Prop := (w.nodes.map (·.name)).Nodup
+
+/-- the state after a round -/
+def afterRound (cron : Cron) (w : World) (e : RoundEnv) : World := (step cron w (.round e)).1
+
+theorem afterRound_eq (cron : Cron) (w : World) (e : RoundEnv) :
+    afterRound cron w e =
+      { (runRound cron w e).2 with nodes := markNodes ((runRound cron w e).1.map (·.name)) (runRound cron w e).2.nodes } := rfl
+
+/-- **C05_inflight_counted** — the candidates a round hands to the queue are marked, hence counted as "being deleted"
+    by every later mapping (until their instance terminates): each accepted node that is an initialized pool node
+    is in the `alreadyDisrupting` set of the next state. -/
+theorem C05_inflight_counted (cron : Cron) (w : World) (e : RoundEnv) (p : String) :
+    ∀ n ∈ (afterRound cron w e).nodes, ((runRound cron w e).1.map (·.name)).contains n.name = true →
+      isPoolNode p n = true → (isPoolNode p n && (!n.ready || n.marked)) = true := by
+  intro n hn
+  rw [afterRound_eq] at hn
+  exact accepted_counted _ _ p n hn
+
+/-- **C05_inflight_step** — a round in a quiescent environment (the validator sees the world the round started from):
+    if the pool was within its budget for the method's reason, or the round accepted at least one of its nodes, then
+    the pool is within that budget *after* the accepted nodes have been marked. -/
+theorem C05_inflight_step (cron : Cron) (hitOf : HitOf) (hc : CronAgrees cron hitOf) (w : World) (e : RoundEnv)
+    (hw : GoodPools w.pools) (hnd : NodesNodup w) (hgroups : e.groups.Nodup) (hlater : e.later = w)
+    (hcands : CandsOfNodes w.nodes (e.cands ++ e.cur)) (p : Pool) (hp : p ∈ w.pools)
+    (h : PoolWithin hitOf w p e.method.reason ∨ 0 < countPool p.name (runRound cron w e).1) :
+    PoolWithin hitOf (afterRound cron w e) p e.method.reason := by
+  have hworld : (runRound cron w e).2 = w := by
+    rcases runRound_world cron w e with h | h
+    · exact h
+    · rw [h, hlater]
+  have hsub : CandsOfNodes w.nodes (runRound cron w e).1 := by
+    intro c hcm
+    apply hcands c
+    rw [List.mem_append]
+    exact runRound_sub cron w e c hcm
+  have hdis := disrupting_after_accept w.nodes hnd (runRound cron w e).1 hsub p.name
+  unfold PoolWithin
+  rw [afterRound_eq, hworld]
+  simp only
+  rw [markNodes_poolSize]
+  by_cases hk : 0 < countPool p.name (runRound cron w e).1
+  · -- the bound at acceptance
+    have hb := C05_round cron hitOf hc w e hw ⟨by rw [hlater]; exact hw, hgroups⟩ p (by rw [hworld]; exact hp)
+    rw [hworld] at hb
+    unfold poolBoundOK at hb
+    have hne : (countPool p.name (runRound cron w e).1 == 0) = false := by
+      simp only [beq_eq_false_iff_ne, ne_eq]; omega
+    rw [hne, Bool.false_or] at hb
+    refine leAllowed_mono _ _ _ ?_ hb
+    omega
+  · rcases h with h | h
+    · unfold PoolWithin at h
+      refine leAllowed_mono _ _ _ ?_ h
+      omega
+    · exact absurd h hk
+
+/-- a quiescent history: only rounds, each validated against the world it started from, candidates are nodes -/
+def Quiescent (cron : Cron) : World → List Step → Prop
+  | _, [] => True
+  | _, .env _ :: _ => False
+  | w, .round e :: ss =>
+    e.later = w ∧ e.groups.Nodup ∧ CandsOfNodes w.nodes (e.cands ++ e.cur) ∧ Quiescent cron (afterRound cron w e) ss
+
+def roundsReason (reason : String) : List Step → Prop
+  | [] => True
+  | .env _ :: ss => roundsReason reason ss
+  | .round e :: ss => e.method.reason = reason ∧ roundsReason reason ss
+
+theorem afterRound_pools (cron : Cron) (w : World) (e : RoundEnv) (hlater : e.later = w) :
+    (afterRound cron w e).pools = w.pools := by
+  rw [afterRound_eq]
+  rcases runRound_world cron w e with h | h
+  · rw [h]
+  · rw [h, hlater]
+
+theorem afterRound_nodup (cron : Cron) (w : World) (e : RoundEnv) (hlater : e.later = w) (hnd : NodesNodup w) :
+    NodesNodup (afterRound cron w e) := by
+  unfold NodesNodup
+  rw [afterRound_eq]
+  simp only
+  rw [markNodes_names]
+  rcases runRound_world cron w e with h | h
+  · rw [h]; exact hnd
+  · rw [h, hlater]; exact hnd
+
+/-- **C05_inflight_accumulate** — consecutive rounds with commands still in flight: over any number of rounds of one
+    disruption reason in a quiescent environment (nothing terminates, nothing is rolled back, the clock stands
+    still), a pool that started within its budget — or in which any round accepted a node — ends within its budget:
+    in-flight commands accumulate in the "being deleted" count and can never add up past the most restrictive
+    active budget. -/
+theorem C05_inflight_accumulate (cron : Cron) (hitOf : HitOf) (hc : CronAgrees cron hitOf) (reason : String)
+    (steps : List Step) :
+    ∀ (w : World), GoodPools w.pools → NodesNodup w → Quiescent cron w steps → roundsReason reason steps →
+      ∀ p ∈ w.pools,
+        (PoolWithin hitOf w p reason ∨ ∃ a ∈ acceptances cron w steps, 0 < countPool p.name a.accepted) →
+        PoolWithin hitOf (finalWorld cron w steps) p reason := by
+  induction steps with
+  | nil =>
+    intro w _ _ _ _ p _ h
+    rcases h with h | ⟨a, ha, _⟩
+    · exact h
+    · simp [acceptances] at ha
+  | cons s ss ih =>
+    intro w hw hnd hq hr p hp h
+    cases s with
+    | env w' => exact absurd hq (by simp [Quiescent])
+    | round e =>
+      obtain ⟨hlater, hgroups, hcands, hq'⟩ := hq
+      obtain ⟨hreason, hr'⟩ := hr
+      have hpools := afterRound_pools cron w e hlater
+      have hw' : GoodPools (afterRound cron w e).pools := by rw [hpools]; exact hw
+      have hnd' := afterRound_nodup cron w e hlater hnd
+      have hp' : p ∈ (afterRound cron w e).pools := by rw [hpools]; exact hp
+      show PoolWithin hitOf (finalWorld cron (afterRound cron w e) ss) p reason
+      apply ih (afterRound cron w e) hw' hnd' hq' hr' p hp'
+      -- either the pool is within budget after this round, or a later round accepts in it
+      have hacc : acceptances cron w (.round e :: ss) =
+          ⟨e.method, (runRound cron w e).1, (runRound cron w e).2⟩ :: acceptances cron (afterRound cron w e) ss := rfl
+      rcases h with h | ⟨a, ha, hk⟩
+      · left
+        rw [← hreason]
+        exact C05_inflight_step cron hitOf hc w e hw hnd hgroups hlater hcands p hp (Or.inl (by rw [hreason]; exact h))
+      · rw [hacc] at ha
+        rcases List.mem_cons.mp ha with rfl | ha
+        · left
+          rw [← hreason]
+          exact C05_inflight_step cron hitOf hc w e hw hnd hgroups hlater hcands p hp (Or.inr hk)
+        · exact Or.inr ⟨a, ha, hk⟩
+
+/-! ## Non-vacuity -/
+
+/-- a cron parameter for "every hour on the hour" (`0 * * * *`), written directly -/
+def hourNs : Int := 3600000000000
+def hourlyHit (t : Int) : Bool := t % 3600000000000 == 0
+def hourlyNext (t : Int) : Option Int := some ((t / 3600000000000 + 1) * 3600000000000)
+def demoCron : Cron := fun s => if s = "0 * * * *" then some hourlyNext else none
+def demoHitOf : HitOf := fun s => if s = "0 * * * *" then some hourlyHit else none
+
+theorem demo_nextSpec : NextSpec hourlyHit hourlyNext := by
+  constructor
+  · intro t h hh
+    simp only [hourlyNext, Option.some.injEq] at hh
+    subst hh
+    simp only [hourlyHit, beq_iff_eq]
+    omega
+  · intro t h hh h' hh' hlt
+    simp only [hourlyNext, Option.some.injEq] at hh
+    subst hh
+    simp only [hourlyHit, beq_iff_eq] at hh'
+    omega
+
+theorem demo_agrees : CronAgrees demoCron demoHitOf := by
+  constructor
+  · simp [demoCron]
+  · intro s; unfold demoCron demoHitOf; split <;> rfl
+  · intro s nx hit h1 h2
+    unfold demoCron at h1; unfold demoHitOf at h2
+    split at h1
+    · rename_i hs
+      simp only [hs, if_true] at h2
+      cases h1; cases h2; exact demo_nextSpec
+    · cases h1
+  · intro s hit h1 h hh
+    unfold demoHitOf at h1
+    split at h1
+    · cases h1
+      have : (h : Int) % 3600000000000 = 0 := by simpa [hourlyHit] using hh
+      show (h : Int) % 60000000000 = 0
+      omega
+    · cases h1
+
+/-- a 20-minute window after every full hour, 30% of the pool, for "Empty" only -/
+def demoBudget : Budget :=
+  { reasons := some ["Empty"], nodes := ['3', '0', '%'], schedule := some "0 * * * *", duration := some (20 * 60000000000) }
+def demoPool : Pool := { name := "a", budgets := [demoBudget, { reasons := none, nodes := ['4'], schedule := none, duration := none }] }
+def mkNode (name : String) (ready marked : Bool) : Node :=
+  { name := name, pool := "a", managed := true, initialized := true, terminating := false, ready := ready, marked := marked }
+def demoNodes : List Node :=
+  [mkNode "n1" true false, mkNode "n2" true false, mkNode "n3" false false, mkNode "n4" true true, mkNode "n5" true false,
+   mkNode "n6" true false, mkNode "n7" true false]
+/-- 10 minutes past the hour (inside the window) / 30 minutes past (outside) -/
+def demoIn : World := { pools := [demoPool], nodes := demoNodes, now := 10 * 60000000000 }
+def demoOut : World := { pools := [demoPool], nodes := demoNodes, now := 30 * 60000000000 }
+
+-- inside the window: ⌈30% of 7⌉ = 3 for Empty, minus 2 already disrupting = 1; Drifted is only bound by "4": 4 − 2 = 2
+example : demoIn.mapping demoCron "Empty" "a" = 1 ∧ demoIn.mapping demoCron "Drifted" "a" = 2 ∧
+    demoOut.mapping demoCron "Empty" "a" = 2 := by decide
+example : specAllowed demoHitOf demoPool.budgets demoIn.now 7 "Empty" = some 3 ∧
+    specAllowed demoHitOf demoPool.budgets demoOut.now 7 "Empty" = some 4 := by decide
+example : GoodPools demoIn.pools := by
+  constructor
+  · decide
+  · intro p hp b hb
+    simp only [demoIn, List.mem_singleton] at hp; subst hp
+    simp only [demoPool, List.mem_cons, List.not_mem_nil, or_false] at hb
+    rcases hb with rfl | rfl <;> decide
+  · right
+    intro p hp b hb
+    simp only [demoIn, List.mem_singleton] at hp; subst hp
+    simp only [demoPool, List.mem_cons, List.not_mem_nil, or_false] at hb
+    rcases hb with rfl | rfl <;> decide
+-- the bound is tight: 1 new node is fine, 2 would exceed it
+example : poolBoundOK demoHitOf demoPool demoNodes demoIn.now "Empty" 1 = true ∧
+    poolBoundOK demoHitOf demoPool demoNodes demoIn.now "Empty" 2 = false := by decide
+-- selection loops on concrete data
+def cA (n : String) (e : Bool) : Cand := { name := n, pool := "a", empty := e }
+def cB (n : String) (e : Bool) : Cand := { name := n, pool := "b", empty := e }
+def demoMap : Mapping := Mapping.ofList [("a", 2), ("b", 1)]
+example : (selectEmptiness demoMap [cA "1" true, cB "2" true, cA "3" false, cA "4" true, cB "5" true, cA "6" true]).map (·.name)
+    = ["1", "2", "4"] := by decide
+example : (selectMulti demoMap [cA "1" true, cB "2" true, cA "3" false, cA "4" true] 3).map (·.name) = ["1", "2", "3"] := by decide
+example : (selectDrift (fun c => c.name != "5") (Mapping.ofList [("a", 0), ("b", 1)]) [cA "1" true, cB "5" true, cB "6" false]).map (·.name)
+    = some "6" := by decide
+example : validateConsolidation demoMap (fun _ => false) [cA "1" true, cA "3" true, cA "4" true] [cA "1" true, cA "3" true, cA "4" true] = false
+    ∧ validateConsolidation demoMap (fun _ => false) [cA "1" true, cA "3" true] [cA "1" true, cA "3" true] = true := by decide
+example : staticCount 3 5 false 2 = 2 ∧ staticCount 3 5 false (-1) = 0 ∧ staticCount 3 2 false 9 = 2 ∧ staticCount 3 5 true 9 = 0 := by decide
+-- the window, at its edges: active at the hit, one ns before the end; inactive at the end and one ns before the hit
+example : isActive demoCron demoBudget (1 * 3600000000000) = some true ∧
+    isActive demoCron demoBudget (1 * 3600000000000 + 20 * 60000000000 - 1) = some true ∧
+    isActive demoCron demoBudget (1 * 3600000000000 + 20 * 60000000000) = some false ∧
+    isActive demoCron demoBudget (1 * 3600000000000 - 1) = some false := by decide
+-- design-round candidates (b) and (c)
+example : isActive demoCron { demoBudget with duration := none } (1 * 3600000000000) = some false := by decide
+example : scaledValue "2147483648".toList 10 = some (-2147483648) ∧ scaledValue "4294967297".toList 10 = some 1 := by decide
+-- a quiescent round on the demo world: Empty has 1 left, so of the two empty candidates one survives validation;
+-- afterwards 3 of the 7 nodes are not ready or being deleted = ⌈30% of 7⌉: the budget is used up, not exceeded
+def demoRound : RoundEnv :=
+  { method := .emptiness, cands := [cA "n1" true, cA "n2" true], ok := fun _ => true, k := 0, over := fun _ => false,
+    remaining := fun _ => 0, groups := [], later := demoIn, cur := [cA "n1" true, cA "n2" true], nominated := fun _ => false }
+def demoRound2 : RoundEnv := { demoRound with later := afterRound demoCron demoIn demoRound }
+def demoHistory : List Step := [.round demoRound, .round demoRound2]
+example : Quiescent demoCron demoIn demoHistory ∧ roundsReason "Empty" demoHistory ∧ NodesNodup demoIn := by
+  refine ⟨⟨rfl, by decide, ?_, ⟨rfl, by decide, ?_, trivial⟩⟩, ⟨by decide, by decide, trivial⟩, ?_⟩
+  · unfold CandsOfNodes; decide
+  · unfold CandsOfNodes; decide
+  · unfold NodesNodup; decide
+example : (acceptances demoCron demoIn demoHistory).map (fun a => a.accepted.map (·.name)) = [["n1"], []] := by decide
+example : alreadyDisrupting (finalWorld demoCron demoIn demoHistory).nodes "a" = 3 := by decide
+example : PoolWithin demoHitOf demoIn demoPool "Empty" := by unfold PoolWithin; decide
+
 end Karp.C05
